@@ -325,6 +325,103 @@ theorem held_run_pinned (cfg : Cfg) (cmds : List Cmd) :
     obtain ⟨t2, hle2, h2⟩ := ih (apply cfg s cmd) l a t1 now h1 (by omega) hs2 hr2 hp2
     exact ⟨t2, by omega, by rw [run_cons]; exact h2⟩
 
+/-! ## Only `acquire` gives a lock -/
+
+/-- one step: a client that does not hold `l` does not hold it after any command other than its own
+`acquire` of `l`. -/
+theorem not_held_step (cfg : Cfg) (s : Table) (l c : Nat) (cmd : Cmd)
+    (h : ∀ t, s l ≠ some (c, t)) (hn : ∀ t, cmd ≠ .acquire l c t) :
+    ∀ t, apply cfg s cmd l ≠ some (c, t) := by
+  intro t ht
+  cases cmd with
+  | acquire l' c' t' =>
+    by_cases hl : l = l'
+    · subst hl
+      have hc : c' ≠ c := fun e => hn t' (by rw [e])
+      simp only [apply, applyRes] at ht
+      cases hs : s l with
+      | none =>
+        rw [acquire_free cfg s l c' t' hs] at ht
+        simp [set_get] at ht
+        exact hc ht.1
+      | some v =>
+        obtain ⟨c0, t0⟩ := v
+        by_cases he : t0 + cfg.U < t'
+        · rw [acquire_expired cfg s l c' c0 t' t0 hs he] at ht
+          simp [set_get] at ht
+          exact hc ht.1
+        · by_cases hc0 : c0 = c'
+          · subst hc0
+            rw [acquire_holder cfg s l c0 t' t0 hs he] at ht
+            simp [set_get] at ht
+            exact hc ht.1
+          · rw [acquire_refused cfg s l c' c0 t' t0 hs he hc0] at ht
+            exact h t ht
+    · simp only [apply, applyRes] at ht
+      rw [acquire_get_ne cfg s c' t' hl] at ht
+      exact h t ht
+  | prolongate c' t' =>
+    simp only [apply, applyRes, prolongate_get] at ht
+    cases hs : s l with
+    | none => simp [hs] at ht
+    | some v =>
+      obtain ⟨c0, t0⟩ := v
+      have hc0 : c0 ≠ c := fun e => h t0 (by rw [hs, e])
+      simp only [hs] at ht
+      split at ht
+      · cases ht
+      · split at ht
+        · next hcc =>
+          injection ht with ht
+          injection ht with h1 _
+          exact hc0 (hcc.trans h1)
+        · injection ht with ht
+          injection ht with h1 _
+          exact hc0 h1
+  | release l' c' =>
+    simp only [apply, applyRes] at ht
+    by_cases hl : l = l'
+    · subst hl
+      cases hs : s l with
+      | none => rw [release_non_holder s l c' (by simp [hs])] at ht; exact h t ht
+      | some v =>
+        obtain ⟨c0, t0⟩ := v
+        by_cases hc : c0 = c'
+        · subst hc
+          rw [release_holder s l c0 t0 hs] at ht
+          simp [del_get] at ht
+        · rw [release_non_holder s l c' (by intro t1 e; rw [hs] at e; injection e with e; injection e with e1 _; exact hc e1)] at ht
+          exact h t ht
+    · rw [release_get_ne s c' hl] at ht
+      exact h t ht
+
+theorem not_held_run (cfg : Cfg) (cmds : List Cmd) :
+    ∀ (s : Table) (l c : Nat), (∀ t, s l ≠ some (c, t)) → (∀ t, Cmd.acquire l c t ∉ cmds) →
+      ∀ t, run cfg s cmds l ≠ some (c, t) := by
+  induction cmds with
+  | nil => intro s l c h _; exact h
+  | cons x xs ih =>
+    intro s l c h hn
+    rw [run_cons]
+    exact ih _ l c (not_held_step cfg s l c x h (fun t e => hn t (by rw [e]; exact List.mem_cons_self ..)))
+      (fun t hm => hn t (List.mem_cons_of_mem _ hm))
+
+/-- after its own `release` a client does not hold the lock. -/
+theorem release_not_held (s : Table) (l c : Nat) : ∀ t, release s l c l ≠ some (c, t) := by
+  intro t ht
+  cases hs : s l with
+  | none => rw [release_non_holder s l c (by simp [hs]), hs] at ht; cases ht
+  | some v =>
+    obtain ⟨c0, t0⟩ := v
+    by_cases hc : c0 = c
+    · subst hc
+      rw [release_holder s l c0 t0 hs] at ht
+      simp [del_get] at ht
+    · rw [release_non_holder s l c (by intro t1 e; rw [hs] at e; injection e with e; injection e with e1 _; exact hc e1), hs] at ht
+      injection ht with ht
+      injection ht with h1 _
+      exact hc h1
+
 /-! ## Every lock time is a stamp of its holder -/
 
 /-- one step: an entry after the step is an old entry or carries the stamp and client of the command. -/
